@@ -60,6 +60,13 @@ def main():
                 basic.load_theory(op[1], limit=limit)
                 d, sizes = canon()
                 res.append(['load', op[1], op[2], 'ok', d, sizes])
+            elif op[0] == 'expect_thms':
+                # content oracle: theorems that must be present (from the imports and the items before the limit) and theorems
+                # that must be absent (own items from the limit on)
+                from kernel import theory
+                missing = [n_ for n_ in op[1] if not theory.thy.has_theorem(n_)]
+                extra = [n_ for n_ in op[2] if theory.thy.has_theorem(n_)]
+                res.append(['expect_thms', len(op[1]), missing[:8], len(missing), extra[:8], len(extra)])
             elif op[0] == 'touch':
                 from logic import basic
                 path = basic.user_file(op[1])
